@@ -291,12 +291,18 @@ func (p *parser) scan() (tkn token.Token, literal string, idx file.Idx) { //noli
 					p.skipSingleLineComment()
 					continue
 				case '*':
+					start := p.chrOffset
 					if p.mode&StoreComments != 0 {
 						comment := string(p.readMultiLineComment())
 						p.comments.AddComment(ast.NewComment(comment, idx))
-						continue
+					} else {
+						p.skipMultiLineComment()
 					}
-					p.skipMultiLineComment()
+					if p.insertSemicolon && strings.ContainsAny(p.str[start:p.chrOffset], "\n\r\u2028\u2029") {
+						// A comment that contains a line terminator acts as one.
+						p.insertSemicolon = false
+						p.implicitSemicolon = true
+					}
 					continue
 				default:
 					// Could be division, could be RegExp literal
